@@ -46,22 +46,22 @@ type srvReq struct {
 }
 
 type srvSc struct {
-	K        int      `json:"k"`
-	Client   bool     `json:"client"` // client mode: nothing is served
-	Self     int      `json:"self"`
-	RT       []int    `json:"rt"`          // pool indices in the routing table
-	NoAddr   []int    `json:"no_addr"`     // positions in RT without peerstore addresses
-	HugeAddr []int    `json:"huge_addr"`   // positions in RT with >8 KiB of addresses
-	Senders  []int    `json:"senders"`     // pool indices (may coincide with RT members)
-	Stored   []int    `json:"stored"`      // value keys k<n> with a stored record
-	ProvKeys []int    `json:"prov_keys"`   // pool multihash keys that have providers stored
-	NProv    int      `json:"n_prov"`      // providers per such key
-	BigProv  bool     `json:"big_prov"`    // providers carry ~8 KiB of addresses each (4 MiB budget reachable when NProv is large)
-	Filter   string   `json:"addr_filter"` // "" | nolo
-	Reqs     []srvReq `json:"reqs"`
-	Silent   bool     `json:"silent,omitempty"` // at the end the senders go silent instead of closing their streams
-	SelfAddrs bool    `json:"self_addrs,omitempty"` // the peerstore holds the node's own addresses (a public and a loopback one), as a libp2p host keeps them
-	tainted  bool     // set while running: a byte-flipped frame of unknown effect was sent; state-dependent provider clauses are off
+	K         int      `json:"k"`
+	Client    bool     `json:"client"` // client mode: nothing is served
+	Self      int      `json:"self"`
+	RT        []int    `json:"rt"`          // pool indices in the routing table
+	NoAddr    []int    `json:"no_addr"`     // positions in RT without peerstore addresses
+	HugeAddr  []int    `json:"huge_addr"`   // positions in RT with >8 KiB of addresses
+	Senders   []int    `json:"senders"`     // pool indices (may coincide with RT members)
+	Stored    []int    `json:"stored"`      // value keys k<n> with a stored record
+	ProvKeys  []int    `json:"prov_keys"`   // pool multihash keys that have providers stored
+	NProv     int      `json:"n_prov"`      // providers per such key
+	BigProv   bool     `json:"big_prov"`    // providers carry ~8 KiB of addresses each (4 MiB budget reachable when NProv is large)
+	Filter    string   `json:"addr_filter"` // "" | nolo
+	Reqs      []srvReq `json:"reqs"`
+	Silent    bool     `json:"silent,omitempty"`     // at the end the senders go silent instead of closing their streams
+	SelfAddrs bool     `json:"self_addrs,omitempty"` // the peerstore holds the node's own addresses (a public and a loopback one), as a libp2p host keeps them
+	tainted   bool     // set while running: a byte-flipped frame of unknown effect was sent; state-dependent provider clauses are off
 }
 
 var (
